@@ -15,6 +15,8 @@ let () =
   register "spec_lines" (fun a -> "ok" ^ hexlist (M.spec_lines (arg a 0)));
   register "seen_lines" (fun a -> "ok" ^ hexlist (M.seen_lines (arg a 0)));
   register "norm_line" (fun a -> "ok " ^ hex_of_bytes (M.norm_line (arg a 0)));
+  (* bom_offset <line_number> <line> -> ok <n> *)
+  register "bom_offset" (fun a -> pr_n (M.bom_offset (n_of_int (int_of_string (List.nth a 0))) (arg a 1)));
   register "max_ref_size" (fun a -> pr_n (M.max_ref_size (n_of_int (int_of_string (List.nth a 0)))));
   register "to_crlf" (fun a -> "ok " ^ hex_of_bytes (M.to_crlf (arg a 0)));
   register "to_cr" (fun a -> "ok " ^ hex_of_bytes (M.to_cr (arg a 0)));
